@@ -85,6 +85,11 @@ func (l *patchLoader) LoadFileList(patchList string) (err error) {
 			return fmt.Errorf("load patch %q: %w", path, err)
 		}
 	}
+	// A line that is too long for the scanner ends the loop as the end
+	// of the file does.
+	if err := scanner.Err(); err != nil {
+		return fmt.Errorf("read %q: %w", patchList, err)
+	}
 	return nil
 }
 
